@@ -115,3 +115,15 @@ pub fn unb64(s: &str) -> Vec<u8> {
     }
     out
 }
+
+/// A crude structural signature of a document used to group violation witnesses.
+pub fn shape_key(html: &[u8]) -> String {
+    let h = String::from_utf8_lossy(html);
+    let mut tags: Vec<&str> = vec![];
+    for t in ["table", "colspan", "pre", "ul", "ol", "blockquote", "h1", "h2", "h3", "dl", "<a ", "img", "中", "\t"] {
+        if h.contains(t) {
+            tags.push(t.trim_matches(|c| c == '<' || c == ' '));
+        }
+    }
+    tags.join(",")
+}
